@@ -22,7 +22,7 @@ func (s *sim) check(a Action) {
 	}
 	now := s.now()
 	out := s.termBytes()
-	timing := len(s.cfg.Arm) == 0 // the mute model's clock is only meaningful when nothing is held back
+	timing := len(s.cfg.Arm) == 0 && !s.windowOpen() // the mute model's clock is only meaningful when nothing is held back
 	held := s.heldSites()
 
 	// plain output: shown at once unless muted; what arrived while muted never shows
